@@ -439,8 +439,11 @@ def run(tier, seed):
         "rule": "(A) Parameter automaton: values {0,g,1,1.5,-0.2,'x',True} x bounds {None,0,g',1,2,'b'}, updates set / "
                 "ParameterDict[key]= / min_bound= / max_bound=, run to closure directly and through a ParameterDict; "
                 "(B) BFS over {set p (valid and invalid for the slot), set p2, dict update, bound changes, construct "
-                "each of 8 placement templates (bs, ps, loss, bs-loss, grouped sub, heralded sub, same parameter "
-                "twice, nested groups), copy, freeze}; after every transition every live circuit's U equals RefCircuit "
+                "each of 12 placement templates (bs, ps, loss, bs-loss, grouped sub, heralded sub, same parameter "
+                "twice, nested groups, host with parameters before a heralded add, non-adjacent bs + swaps, a + b, swap / "
+                "inverse swap around parametrised elements), copy, freeze, unpack_groups / compress_mode_swaps / "
+                "remove_non_adjacent_bs in place}; every state expanded twice: as is, and with U and the parameter list "
+                "read after every step of its history; after every transition every live circuit's U equals RefCircuit "
                 "at the current values (or raises CircuitCompilationError iff a value is invalid for its slot), frozen "
                 "copies equal RefCircuit at their freeze-time values and list no parameters, get_all_params lists each "
                 "parameter once. distinct_nontrivial = distinct states with >= 1 circuit (B) / changed parameter (A).",
